@@ -276,6 +276,15 @@ fn make_context_set(w: &World, spec: &str) -> Result<(GraphColoredVertices, Opti
                 .map(|i| unit_bits[i] && cols[i >> n])
                 .collect()
         }
+        // the complementary set of colours of "k" with the same seed (x all states)
+        "K" => {
+            let (seed, num, den) = parse_rnd(arg);
+            let mut rng = Rng::new(seed);
+            let cols: Vec<bool> = (0..(1usize << p)).map(|_| rng.below(den) < num).collect();
+            (0..(1usize << (p + n)))
+                .map(|i| unit_bits[i] && !cols[i >> n])
+                .collect()
+        }
         // literal bits over pn
         "b" => arg.chars().map(|c| c == '1').collect(),
         // result of a closed plain formula (raw result of the implementation itself)
@@ -989,6 +998,9 @@ fn main() {
             "TREE" => run_tree(&fields, &mut cases, &mut out),
             _ => shell::run(&fields, &mut cases, &mut out, &line),
         }
+        // answers are visible as soon as they exist: a request that never returns is identified
+        // by the checker as the first one without an answer
+        out.flush().unwrap();
     }
     cases.flush().unwrap();
     out.flush().unwrap();
